@@ -410,6 +410,10 @@ func (t *Crypto) deriveESWithECKeyForUnwrap(alg string, apu, apv []byte, epk *cr
 		return nil, errors.New("deriveESWithECKeyForUnwrap: recipient and ephemeral keys are not on the same curve")
 	}
 
+	if err = validECPublicKey(recPrivKey.Curve, epkPubKey); err != nil {
+		return nil, fmt.Errorf("deriveESWithECKeyForUnwrap: ephemeral key: %w", err)
+	}
+
 	return josecipher.DeriveECDHES(alg, apu, apv, recPrivKey, epkPubKey, defKeySize), nil
 }
 
@@ -431,6 +435,10 @@ func (t *Crypto) deriveESWithECKey(apu, apv []byte, recPubKey *cryptoapi.PublicK
 	if len(apu) == 0 {
 		apu = make([]byte, base64.RawURLEncoding.EncodedLen(len(ephemeralXBytes)))
 		base64.RawURLEncoding.Encode(apu, ephemeralXBytes)
+	}
+
+	if err = validECPublicKey(ephemeralPrivKey.Curve, recECPubKey); err != nil {
+		return "", nil, nil, nil, fmt.Errorf("deriveESWithECKey: recipient key: %w", err)
 	}
 
 	kek := josecipher.DeriveECDHES(wrappingAlg, apu, apv, ephemeralPrivKey, recECPubKey, defKeySize)
